@@ -114,3 +114,101 @@ func InLoop(in ssa.Instruction) bool {
 	}
 	return false
 }
+
+// FeasibleFollow reports whether b can execute after a on a path along which
+// every branch on an *immutable atom* goes the same way each time it is met
+// (atom names the atom a condition tests, e.g. a configuration flag that is
+// never written after construction, with the truth value that makes the
+// condition true).  The branch outcomes already known at a count too.  Plain
+// reachability ignores that `if !flag { return }` at the top of a loop body
+// cannot be taken in a later iteration than one in which it was not taken.
+func FeasibleFollow(fs *FactSet, a, b ssa.Instruction, atom func(cond ssa.Value) (name string, positive bool, ok bool)) bool {
+	type key struct {
+		blk *ssa.BasicBlock
+		asg string
+	}
+	render := func(m map[string]bool) string {
+		var ks []string
+		for k := range m {
+			ks = append(ks, k)
+		}
+		// small maps: insertion sort
+		for i := 1; i < len(ks); i++ {
+			for j := i; j > 0 && ks[j] < ks[j-1]; j-- {
+				ks[j], ks[j-1] = ks[j-1], ks[j]
+			}
+		}
+		s := ""
+		for _, k := range ks {
+			if m[k] {
+				s += k + "=1;"
+			} else {
+				s += k + "=0;"
+			}
+		}
+		return s
+	}
+	init := map[string]bool{}
+	for _, f := range fs.At(a.Block()) {
+		if n, pos, ok := atom(f.Cond); ok {
+			init[n] = f.Truth == pos
+		}
+	}
+	if a.Block() == b.Block() && idx(a) < idx(b) {
+		return true
+	}
+	seen := map[key]bool{}
+	type item struct {
+		blk *ssa.BasicBlock
+		asg map[string]bool
+	}
+	var stack []item
+	push := func(blk *ssa.BasicBlock, asg map[string]bool) {
+		k := key{blk, render(asg)}
+		if !seen[k] {
+			seen[k] = true
+			stack = append(stack, item{blk, asg})
+		}
+	}
+	succs := func(blk *ssa.BasicBlock, asg map[string]bool) {
+		iff, ok := blk.Instrs[len(blk.Instrs)-1].(*ssa.If)
+		if !ok || blk.Succs[0] == blk.Succs[1] {
+			for _, s := range blk.Succs {
+				push(s, asg)
+			}
+			return
+		}
+		n, pos, isAtom := atom(iff.Cond)
+		if !isAtom {
+			push(blk.Succs[0], asg)
+			push(blk.Succs[1], asg)
+			return
+		}
+		if v, known := asg[n]; known {
+			if v == pos {
+				push(blk.Succs[0], asg)
+			} else {
+				push(blk.Succs[1], asg)
+			}
+			return
+		}
+		for i, val := range []bool{pos, !pos} {
+			m := make(map[string]bool, len(asg)+1)
+			for k, v := range asg {
+				m[k] = v
+			}
+			m[n] = val
+			push(blk.Succs[i], m)
+		}
+	}
+	succs(a.Block(), init)
+	for len(stack) > 0 {
+		it := stack[len(stack)-1]
+		stack = stack[:len(stack)-1]
+		if it.blk == b.Block() {
+			return true
+		}
+		succs(it.blk, it.asg)
+	}
+	return false
+}
